@@ -24,7 +24,17 @@ OddAttrs == { [DefFw EXCEPT !.at = a, !.to = "NONE"] : a \in {"FEE", "UNREG", "N
                     [DefFw EXCEPT !.at = "HYP", !.tok = "T1", !.dom = 1, !.rcp = "R_A", !.hook = "H_UNK", !.to = "NONE"],
                     [DefFw EXCEPT !.at = "HYP", !.tok = "T1", !.dom = 3, !.rcp = "R_A", !.to = "NONE"],
                     [DefFw EXCEPT !.at = "HYP", !.tok = "T1", !.dom = 1, !.rcp = "R_A", !.meta = "BAD", !.to = "NONE"],
-                    [DefFw EXCEPT !.at = "INT", !.to = "INVALID"], [DefFw EXCEPT !.at = "INT", !.to = "EMPTY"] }
+                    [DefFw EXCEPT !.at = "INT", !.to = "INVALID"], [DefFw EXCEPT !.at = "INT", !.to = "EMPTY"],
+                    \* byte fields of the wrong length (a longer value must not be truncated into another address)
+                    [DefFw EXCEPT !.at = "HYP", !.tok = "T1", !.dom = 1, !.rcp = "LONG33", !.to = "NONE"],
+                    [DefFw EXCEPT !.at = "HYP", !.tok = "T1", !.dom = 1, !.rcp = "SHORT", !.to = "NONE"],
+                    [DefFw EXCEPT !.at = "HYP", !.tok = "LONG33", !.dom = 1, !.rcp = "R_A", !.to = "NONE"],
+                    [DefFw EXCEPT !.at = "HYP", !.tok = "T1", !.dom = 1, !.rcp = "R_A", !.hook = "LONG33", !.to = "NONE"],
+                    [DefFw EXCEPT !.at = "HYP", !.tok = "T1", !.dom = 1, !.rcp = "R_A", !.hook = "SHORT", !.to = "NONE"],
+                    [DefFw EXCEPT !.at = "CCTP", !.dom = 0, !.mint = "LONG33", !.to = "NONE"],
+                    [DefFw EXCEPT !.at = "CCTP", !.dom = 0, !.mint = "SHORT", !.to = "NONE"],
+                    [DefFw EXCEPT !.at = "CCTP", !.dom = 0, !.mint = "MINT_A", !.caller = "LONG33", !.to = "NONE"],
+                    [DefFw EXCEPT !.at = "INT", !.to = "ORB_UPPER"], [DefFw EXCEPT !.at = "INT", !.to = "OTHER_HRP"] }
 Attrs == IF ReqSet = "full" THEN CctpAttrs \cup HypAttrs \cup IntAttrs \cup OddAttrs
          ELSE { a \in CctpAttrs : a.dom = 0 } \cup { a \in HypAttrs : a.dom = 1 /\ a.rcp = "R_A" /\ a.gas = 77 } \cup IntAttrs \cup OddAttrs
 ActSets == { <<>>, <<FeeAct(<<Bps(1000, "F1")>>)>> }
